@@ -634,6 +634,11 @@ func (u *Unit) scriptOpt(o *Obligation, dropQuant bool) string {
 				continue
 			}
 		}
+		if dropQuant && it.kind == itRaw && it.qf != "" {
+			b.WriteString(it.qf)
+			b.WriteByte('\n')
+			continue
+		}
 		if dropQuant && it.kind == itRaw && strings.Contains(it.text, "(forall ") {
 			for _, line := range strings.Split(it.text, "\n") {
 				if !strings.Contains(line, "(forall ") {
